@@ -92,10 +92,45 @@ def setup():
   from scales.loadbalancer.serverset import ServerSetProvider
   from scales.asynchronous import AsyncResult
   from scales.message import Message, MethodReturnMessage, TimeoutError
-  from scales.sink import ClientMessageSink, ClientMessageSinkStack, SinkProviderBase
+  from scales.sink import ClientMessageSink, ClientMessageSinkStack, SinkProviderBase, ClientTimeoutSink
+  from scales.loadbalancer import aperture as apmod
+  from scales import sink as sinkmod
+  from scales.message import Deadline
   rnd = _Rand()
   heapmod.random = rnd
   basemod.random = rnd
+  apmod.random = rnd
+
+  class StubTimerQueue(object):
+    """Stands in for scales.sink.GLOBAL_TIMER_QUEUE: the harness decides when a deadline fires."""
+
+    def __init__(self):
+      self.actions = []
+
+    def Schedule(self, deadline, action):
+      ent = {'action': action, 'cancelled': False}
+      self.actions.append(ent)
+
+      def cancel():
+        ent['cancelled'] = True
+      return cancel
+  stubq = StubTimerQueue()
+  sinkmod.GLOBAL_TIMER_QUEUE = stubq
+
+  class BalProv(object):
+    def __init__(self, bal):
+      self.bal = bal
+
+    def CreateSink(self, properties):
+      return self.bal
+
+  class FakeClock(object):
+    def __init__(self):
+      self.t = 0.0
+
+    def Sample(self):
+      self.t += 1.0
+      return self.t
   tap = _LogTap()
   lg = logging.getLogger('scales.loadbalancer')
   lg.setLevel(logging.DEBUG)
@@ -170,9 +205,17 @@ def setup():
       return Chan
 
   class Member(object):
-    def __init__(self, ep):
-      self.service_endpoint = ep
-      self.additional_endpoints = {}
+    """A server-set member.  With epname the balancer is configured to use the named additional endpoint
+    'aux' (= the endpoint the labels talk about); service_endpoint is then something else."""
+
+    def __init__(self, ep, epname=False, noaux=False):
+      self.label_ep = ep
+      if epname:
+        self.service_endpoint = ep + 5000
+        self.additional_endpoints = {} if noaux else {'aux': ep}
+      else:
+        self.service_endpoint = ep
+        self.additional_endpoints = {}
 
   class ServerSet(ServerSetProvider):
     def __init__(self, world):
@@ -190,37 +233,53 @@ def setup():
 
     def GetServers(self):
       self.release.wait()
-      lst = [Member(e) for e in self.snapshot]
+      lst = [Member(e, self.world.epname) for e in self.snapshot]
       self.served = lst
       return lst
+
+    @property
+    def endpoint_name(self):
+      return 'aux' if self.world.epname else None
 
   _S.update(gevent=gevent, Event=Event, Queue=Queue, SinkProperties=SinkProperties,
             MessageProperties=MessageProperties, HeapBalancerSink=HeapBalancerSink,
             ApertureBalancerSink=ApertureBalancerSink, Message=Message, MethodReturnMessage=MethodReturnMessage,
             TimeoutError=TimeoutError, Chan=Chan, Caller=Caller, RecStack=RecStack, Provider=Provider,
-            Member=Member, ServerSet=ServerSet, rnd=rnd, tap=tap, heapmod=heapmod)
+            Member=Member, ServerSet=ServerSet, rnd=rnd, tap=tap, heapmod=heapmod, stubq=stubq, BalProv=BalProv,
+            FakeClock=FakeClock, ClientTimeoutSink=ClientTimeoutSink, Deadline=Deadline)
 
 
 class World(object):
   def __init__(self, case):
     self.st0 = case.get('st0', 2)
+    self.epname = bool(case.get('epname'))
     self.events = []
     self.opens = []
     self.received = []
     self.chans = []
 
 
-def _make_balancer(world, kind):
+def _make_balancer(world, case):
+  kind = case.get('kind', 'heap')
   ss = _S['ServerSet'](world)
   prov = _S['Provider'](world)
   cls = _S['HeapBalancerSink'] if kind == 'heap' else _S['ApertureBalancerSink']
   props = cls.Builder._defaults.copy()
   props['server_set_provider'] = ss
-  if kind != 'heap':
+  if kind == 'aperture':          # every member active: same code paths as the heap balancer
     props.update(min_size=100000, jitter_min_sec=0, jitter_max_sec=0)
+  elif kind == 'aperture_real':   # a real aperture with idle servers outside it; no jitter
+    props.update(min_size=case.get('min_size', 2), max_size=2 ** 31, jitter_min_sec=0, jitter_max_sec=0)
+    if not case.get('adapt'):     # expansion only by node-down / leave, never by the load average
+      props.update(min_load=-1.0, max_load=1e18)
   sp = cls.Builder.PARAMS_CLASS(**props)
   bal = cls(prov, sp, {_S['SinkProperties'].Label: 'c03'})
-  return bal, ss
+  if kind != 'heap':
+    bal._time = _S['FakeClock']()   # deterministic load average
+  head = bal
+  if case.get('tsink'):           # the real ClientTimeoutSink in front of the balancer, as scales.core builds it
+    head = _S['ClientTimeoutSink'](_S['BalProv'](bal), None, {_S['SinkProperties'].Label: 'c03'})
+  return bal, ss, head
 
 
 def _diag(bal):
@@ -282,15 +341,19 @@ def _run_impl(case):
   w = World(case)
   rnd = _S['rnd']
   _S['tap'].world = w
-  bal, ss = _make_balancer(w, case.get('kind', 'heap'))
+  bal, ss, head = _make_balancer(w, case)
+  epname = w.epname
+  mapep = (lambda e: e + 100) if epname else (lambda e: e)
+  stubq = _S['stubq']
+  del stubq.actions[:]
   q = _S['Queue']()
   prog = {'enq': 0, 'done': 0, 'exc': None}
 
   def deliverer():
     while True:
-      kind, ep = q.get()
+      kind, ep, noaux = q.get()
       try:
-        (ss.on_join if kind == 'join' else ss.on_leave)(_S['Member'](ep))
+        (ss.on_join if kind == 'join' else ss.on_leave)(_S['Member'](ep, epname, noaux))
       except Exception as e:   # noqa
         prog['exc'] = type(e).__name__
       prog['done'] += 1
@@ -334,8 +397,12 @@ def _run_impl(case):
     stack.Push(caller, None)
     msg = _S['Message']()
     del w.received[:]
+    n0 = len(stubq.actions)
+    if head is not bal:
+      import time as _time
+      msg.properties[_S['Deadline'].KEY] = _time.time() + 1e6
     try:
-      bal.AsyncProcessRequest(stack, msg, None, {})
+      head.AsyncProcessRequest(stack, msg, None, {})
     except Exception as e:
       record(['dispatch'], {'t': 'exc', 'exc': type(e).__name__}, opi, extra)
       return None
@@ -343,7 +410,8 @@ def _run_impl(case):
       nid = w.received[0]
       rid = state['nrid']
       state['nrid'] += 1
-      out_reqs.append({'rid': rid, 'nid': nid, 'stack': stack, 'caller': caller})
+      out_reqs.append({'rid': rid, 'nid': nid, 'stack': stack, 'caller': caller,
+                       'timer': stubq.actions[n0] if len(stubq.actions) > n0 else None})
       record(['dispatch'], {'t': 'sent', 'nid': nid, 'ep': msg.properties.get(_S['MessageProperties'].Endpoint),
                             'rid': rid, 'nrecv': len(w.received)}, opi, extra)
       return nid
@@ -368,6 +436,10 @@ def _run_impl(case):
         stack.AsyncProcessResponseMessage(_S['MethodReturnMessage']('v'))
       elif kind == 'error':
         stack.AsyncProcessResponseMessage(_S['MethodReturnMessage'](error=Exception('server error')))
+      elif req.get('timer') is not None:
+        # the deadline fires: the real ClientTimeoutSink._TimeoutHelper completes the call
+        if not req['timer']['cancelled']:
+          req['timer']['action']()
       else:
         stack.AsyncProcessResponseMessage(_S['MethodReturnMessage'](error=_S['TimeoutError']()))
     except Exception as e:
@@ -377,17 +449,23 @@ def _run_impl(case):
     j = rnd.calls[0] if rnd.calls else 0
     record(['complete', req['rid'], j], {'t': 'put', 'rand': len(rnd.calls), 'j': j}, opi,
            {'rid': req['rid'], 'nid': req['nid'], 'again': again, 'kind': kind,
+            'real_timeout_sink': bool(kind == 'timeout' and req.get('timer') is not None),
             'delivered': len(req['caller'].got) - before})
 
   def do_setchan(ch, st, opi, extra=None):
     ch._st = st
     record(['setchan', ch.nid, st], {'t': 'set'}, opi, extra)
 
-  def notify(kind, ep, opi):
-    q.put((kind, ep))
+  def notify(kind, ep, opi, noaux=False):
+    q.put((kind, ep, noaux))
     prog['enq'] += 1
     settle()
     applied = prog['done'] == prog['enq']
+    if noaux:
+      # a member without the configured named endpoint: base.py raises ValueError to the provider
+      record(['noaux', kind, ep], {'t': 'applied' if applied else 'blocked', 'noaux_exc': prog['exc']}, opi)
+      prog['exc'] = None
+      return
     if kind == 'join':
       ref_members[ep] = True
     else:
@@ -404,14 +482,19 @@ def _run_impl(case):
       k = op[0]
       if k in ('join', 'leave'):
         if not state['init']:
-          pending_notifs.append((k, op[1]))
-        notify(k, op[1], opi)
+          pending_notifs.append((k, mapep(op[1])))
+        notify(k, mapep(op[1]), opi)
+      elif k in ('join_noaux', 'leave_noaux'):
+        if not (epname and state['init']):
+          state['skipped'] += 1
+          continue
+        notify(k[:-6], mapep(op[1]), opi, noaux=True)
       elif k == 'init':
         if state['init']:
           state['skipped'] += 1
           continue
         rnd.shuffle_seed = op[2] if len(op) > 2 else 0
-        ss.snapshot = list(op[1])
+        ss.snapshot = [mapep(e) for e in op[1]]
         ss.release.set()
         settle()
         try:
@@ -420,7 +503,7 @@ def _run_impl(case):
           pass
         settle()
         state['init'] = True
-        order = [m.service_endpoint for m in (ss.served or [])]
+        order = [m.label_ep for m in (ss.served or [])]
         ref_members.clear()
         for e in order:
           ref_members[e] = True
@@ -452,7 +535,7 @@ def _run_impl(case):
           nid = nids[kk % len(nids)]
           req = next(r for r in out_reqs if r['nid'] == nid)
         elif sel == 'ep':
-          cands = [r for r in out_reqs if w.chans[r['nid']].ep == kk]
+          cands = [r for r in out_reqs if w.chans[r['nid']].ep == mapep(kk)]
           req = cands[0] if cands else out_reqs[kk % len(out_reqs)]
         else:
           req = out_reqs[kk % len(out_reqs)]
@@ -470,6 +553,15 @@ def _run_impl(case):
         if sel == 'member':
           eps = sorted(ref_members)
           ch = live_chan(eps[kk % len(eps)]) if eps else None
+        elif sel == 'min':       # the least-loaded channel still in use (the heap root, in all likelihood)
+          c = counts()
+          cands = [x for x in w.chans if x._st != 4]
+          if cands:
+            m = min(c.get(x.nid, 0) for x in cands)
+            cands = [x for x in cands if c.get(x.nid, 0) == m]
+            ch = cands[kk % len(cands)]
+          else:
+            ch = None
         else:
           ch = w.chans[kk % len(w.chans)] if w.chans else None
         if ch is None:
@@ -544,6 +636,8 @@ def analyse(case, obs):
   labels, steps = obs['labels'], obs['steps']
   if obs.get('hang'):
     return [({'C03', 'C04', 'C05'}, 'impl-hang', 'the balancer did not return within the watchdog time (endless loop)')]
+  if case.get('kind') == 'aperture_real':
+    return analyse_aperture(case, obs)
 
   def new_node(nid, ep, member):
     nodes[nid] = dict(nid=nid, ep=ep, member=member, out=0, st=st0, marked=False, closed=0, close_due=False)
@@ -575,6 +669,10 @@ def analyse(case, obs):
     creates = [e for e in ev if e[0] == 'create']
     closes = [e[1] for e in ev if e[0] == 'close']
     kind = lb[0]
+    if kind == 'noaux' and res.get('noaux_exc') != 'ValueError':
+      flag({'C05'}, 'member-without-named-endpoint-accepted',
+           'a %s notification for a member lacking the configured endpoint name did not raise ValueError (%s)'
+           % (lb[1], res.get('noaux_exc')), i)
     # ---- membership bookkeeping -----------------------------------------------------------------
     cr = list(creates)
     if kind in ('join', 'leave'):
@@ -717,6 +815,83 @@ def analyse(case, obs):
   return V
 
 
+def analyse_aperture(case, obs):
+  """C03 on a REAL aperture (idle servers outside it).  The members the balancer is using are the nodes of its
+  heap; which those are is not visible from outside (a contraction of a loaded member is silent), so the
+  candidate set is read from the balancer (heap array after the previous label).  Candidates for 'a better
+  member existed' are only nodes that were in the aperture BEFORE the dispatch; the chosen node may also be
+  one that the dispatch itself added (expansion on node-down)."""
+  V = []
+  labels, steps = obs['labels'], obs['steps']
+
+  def flag(sig, msg, i):
+    V.append(({'C03'}, sig, 'step %d (op %d, label %s): %s' % (i, steps[i]['op'], labels[i], msg)))
+
+  st0 = case.get('st0', 2)
+  nodes = {}
+  reqs = {}
+  prev_heap = None
+  for i, (lb, st) in enumerate(zip(labels, steps)):
+    res, ev = st['res'], st['events']
+    if res.get('t') == 'exc' or res.get('exc'):
+      flag('impl-exception', 'the balancer raised %s' % (res.get('exc'),), i)
+    created = set()
+    for e in ev:
+      if e[0] == 'create':
+        nodes[e[1]] = dict(nid=e[1], ep=e[2], out=0, st=st0)
+        created.add(e[1])
+      elif e[0] == 'close' and e[1] in nodes:
+        nodes[e[1]]['st'] = 4
+    k = lb[0]
+    if k == 'setchan' and lb[1] in nodes:
+      nodes[lb[1]]['st'] = lb[2]
+    elif k == 'dispatch':
+      if res.get('t') == 'sent':
+        nid = res['nid']
+        x = nodes.get(nid)
+        if prev_heap is not None and x is not None:
+          pre_ids = [n for n, _l in prev_heap]
+          if nid not in pre_ids and nid not in created:
+            flag('dispatch-outside-aperture', 'request went to channel %d (%s) which is not in the aperture %s'
+                 % (nid, x['ep'], pre_ids), i)
+          if res.get('ep') != x['ep']:
+            flag('endpoint-stamp-mismatch', 'message stamped %r but sent to the channel of %r' % (res.get('ep'), x['ep']), i)
+          opens = [nodes[n] for n in pre_ids if n in nodes and nodes[n]['st'] == 2]
+          if opens:
+            if x['st'] != 2:
+              flag('down-member-chosen-while-open-exists',
+                   'chosen aperture member %s (channel state %d) is not open while %s are'
+                   % (x['ep'], x['st'], [m['ep'] for m in opens]), i)
+            else:
+              mn = min(m['out'] for m in opens)
+              if x['out'] > mn:
+                flag('not-least-loaded', 'chosen aperture member %s has %d outstanding requests, open aperture member %s has %d'
+                     % (x['ep'], x['out'], [m['ep'] for m in opens if m['out'] == mn][0], mn), i)
+        if x is not None:
+          x['out'] += 1
+        reqs[res['rid']] = dict(nid=nid, done=False)
+      elif res.get('t') == 'failed':
+        if prev_heap:
+          flag('failed-with-members', 'request failed (%s) although the aperture holds %s' % (res.get('err'), [n for n, _l in prev_heap]), i)
+        elif prev_heap is not None and res.get('err') != 'NoMembersError':
+          flag('no-members-wrong-error', 'empty balancer answered %s' % res.get('err'), i)
+    elif k == 'complete':
+      r = reqs.get(lb[1])
+      if r is not None and not r['done']:
+        r['done'] = True
+        if r['nid'] in nodes:
+          nodes[r['nid']]['out'] -= 1
+    d = st.get('diag') or {}
+    prev_heap = d.get('heap') if 'heap' in d else None
+    if prev_heap is not None:
+      for p_ in range(2, len(prev_heap) + 1):
+        if prev_heap[p_ // 2 - 1][1] > prev_heap[p_ - 1][1]:
+          flag('diag-heap-order', 'heap order broken: load at position %d is %d > %d at position %d'
+               % (p_ // 2, prev_heap[p_ // 2 - 1][1], prev_heap[p_ - 1][1], p_), i)
+          break
+  return V
+
+
 def monitor_for(pid):
   def monitor(case, obs):
     seen = set()
@@ -785,17 +960,21 @@ def _result(lb, st):
 
 
 def to_coq(case, obs):
-  if obs.get('hang'):
-    return None
+  if obs.get('hang') or case.get('kind') == 'aperture_real':
+    return None              # a real aperture (idle servers, load-driven size) is C06's model: monitor only here
   labels, steps = obs['labels'], obs['steps']
   exp = []
+  kept = []
   for lb, st in zip(labels, steps):
+    if lb[0] == 'noaux':     # raises before anything is touched: not a label of the model
+      continue
+    kept.append(lb)
     d = st.get('diag') or {}
     hp = 'None'
     if 'heap' in d:
       hp = '(Some %s)' % C.lst(['(%s, %s)' % (C.zlit(a), C.zlit(b)) for a, b in d['heap']])
     exp.append('((%s, %s), %s)' % (_result(lb, st), C.lst([_event(e) for e in st['events']]), hp))
-  return 'mkCase %s %s %s' % (C.zlit(case.get('st0', 2)), C.lst([_label(l) for l in labels]), C.lst(exp))
+  return 'mkCase %s %s %s' % (C.zlit(case.get('st0', 2)), C.lst([_label(l) for l in kept]), C.lst(exp))
 
 
 # -------------------------------------------------------------------------------------------------
@@ -832,6 +1011,8 @@ def _one_op(r, wts, universe):
     return ['recomplete', r.randrange(0, 64), r.choice(['stack', 'ctx'])]
   if k == 'chan':
     return ['setchan', r.choice(['member', 'member', 'member', 'any']), r.randrange(0, 64), r.choice([2, 2, 2, 4, 4, 1, 3])]
+  if k == 'chan_min':
+    return ['setchan', 'min', r.randrange(0, 64), r.choice([4, 4, 4, 3])]
   if k == 'fault':
     return ['fault', r.randrange(0, 64)]
   if k == 'join':
@@ -841,7 +1022,35 @@ def _one_op(r, wts, universe):
   return ['burst']
 
 
+SHARES = {
+    # share of cases: on a real aperture (monitor only) / through the real ClientTimeoutSink / provider with endpoint_name
+    'C03': dict(ap_real=0.25, tsink=0.4, epname=0.1),
+    'C04': dict(ap_real=0.0, tsink=0.65, epname=0.15),
+    'C05': dict(ap_real=0.0, tsink=0.3, epname=0.4),
+}
+AP_PROFILE = dict(dispatch=8, c_any=2.5, c_min=0.5, c_max=1, rec=0.1, chan=1.5, chan_min=2.0, fault=0.3, join=0.4, leave=0.5,
+                  burst=0.0)
+
+
+def gen_aperture_real(r):
+  """ApertureBalancerSink with idle servers outside the aperture: min_size 1-3 of 4-8 servers, no jitter;
+  load the aperture, then take the least-loaded member's channel down and dispatch (expansion on node-down)."""
+  nsrv = r.choice([4, 5, 6, 7, 8])
+  min_size = r.choice([1, 2, 3, 3, 3])
+  universe = list(range(nsrv + r.choice([0, 1])))
+  ops = [['init', r.sample(universe, nsrv), r.randrange(0, 1000)]]
+  for _ in range(r.choice([2 * min_size, 3 * min_size, 8])):
+    ops.append(['dispatch'])
+  for _ in range(r.choice([20, 40, 60, 100])):
+    ops.append(_one_op(r, AP_PROFILE, universe))
+  return {'kind': 'aperture_real', 'min_size': min_size, 'adapt': r.random() < 0.3,
+          'st0': r.choice([2, 2, 2, 2, 1]), 'tsink': r.random() < 0.3, 'ops': ops}
+
+
 def gen_case(r, pid, size_hint=None, aperture_share=0.15):
+  sh = SHARES[pid]
+  if r.random() < sh['ap_real']:
+    return gen_aperture_real(r)
   nmem = size_hint or r.choice([1, 2, 3, 4, 5, 6, 6, 7, 7, 8, 9, 10, 12])
   universe = list(range(nmem + r.choice([0, 0, 1, 2, 3])))
   ops = []
@@ -867,8 +1076,16 @@ def gen_case(r, pid, size_hint=None, aperture_share=0.15):
     left -= 1
     ops.append(_one_op(r, prof, universe))
   ops.append(['burst'])
-  return {'kind': 'aperture' if r.random() < aperture_share else 'heap',
+  case = {'kind': 'aperture' if r.random() < aperture_share else 'heap',
           'st0': r.choice([2, 2, 2, 1, 4]), 'ops': ops}
+  if r.random() < sh['tsink']:
+    case['tsink'] = True
+  if r.random() < sh['epname']:
+    case['epname'] = True          # provider.endpoint_name = 'aux'; members carry service_endpoint != aux endpoint
+    first = next(i for i, o in enumerate(ops) if o[0] == 'init') + 1
+    for _ in range(r.choice([0, 1, 2, 3])):    # members lacking the named endpoint: ValueError, nothing changes
+      ops.insert(r.randrange(first, len(ops)), [r.choice(['join_noaux', 'leave_noaux']), r.choice(universe)])
+  return case
 
 
 def gen_exhaustive(depth, nmem):
@@ -942,6 +1159,10 @@ def stats(cases, obs):
       c['harness_failures'] += 1
       continue
     c['cases_' + cs.get('kind', 'heap')] += 1
+    if cs.get('tsink'):
+      c['cases_with_real_ClientTimeoutSink_in_front'] += 1
+    if cs.get('epname'):
+      c['cases_with_named_endpoint_provider'] += 1
     maxsize = 0
     prev = {}
     for lb, st in zip(o['labels'], o['steps']):
@@ -965,6 +1186,8 @@ def stats(cases, obs):
           c['dispatch_resurrected_node'] += 1
         if any(e[0] == 'down' for e in ev):
           c['dispatch_marked_node_down'] += 1
+          if cs.get('kind') == 'aperture_real' and any(e[0] == 'create' for e in ev):
+            c['aperture_real_expanded_on_node_down'] += 1
         d = st.get('diag') or {}
         if t == 'sent' and 'heap' in d:
           ld = dict((a, b) for a, b in d['heap']).get(res['nid'])
@@ -980,6 +1203,8 @@ def stats(cases, obs):
         else:
           c['put_fixup_or_detached'] += 1
         c['complete_kind_' + str(st.get('kind'))] += 1
+        if st.get('real_timeout_sink'):
+          c['complete_timeout_through_real_ClientTimeoutSink'] += 1
       elif k in ('join', 'leave'):
         c['%s_%s' % (k, t)] += 1
         if k == 'join' and any(e[0] == 'create' for e in ev):
